@@ -28,7 +28,7 @@ func init() {
 	Register(&Prop{
 		ID:          "C16",
 		Gomaxprocs:  2,
-		Rule:        "workspaces of 1-3 journals from G (root/no root); into one open document a probe entry is inserted (between two entries or at the end) whose probe line is built so that the harness knows the context and the typed fragment: account on a posting line (4 spaces, tab, 2 or 8 spaces indent; plain, with status, virtual), account directive, payee on a header line (with/without status and code), commodity after an amount / a cost / a balance assertion / on a commodity directive, tag name and tag value in header, posting and line comments; the line ends at the cursor (typing) or continues behind it; the fragment is a prefix (length 0..full, 4 case variants), a subsequence of an existing name, or garbage. Two servers configured with maxResults a<b (1..200), fuzzy on/off, counts on/off answer every probe. Oracle clauses: sound (label exists in the scope and matches the fragment: subsequence with fuzzy, prefix without, case-insensitively), complete (every scope name starting with the fragment is offered when fewer than max were returned), bounded, prefix law (list(a) = list(b)[:a]), ranking (empty fragment: no item precedes one that is certainly used more often), edit (a TextEdit replaces exactly [cursor-len(fragment), cursor]). Second part: every column of sampled lines of the unmodified document, weak oracle (labels exist for their kind, bounded, prefix law, edit range on the line and ending at the cursor). Non-trivial = probe with a non-empty required set or a non-empty answer; distinct by (slot, fragment class, config class).",
+		Rule:        "workspaces of 1-3 journals from G (root/no root; 3-8 entries per file, an eighth of them 45-70 entries so that short fragments have 60-150 candidates); into one open document a probe entry is inserted (between two entries or at the end) whose probe line is built so that the harness knows the context and the typed fragment: account on a posting line (4 spaces, tab, 2 or 8 spaces indent; plain, with status, virtual), account directive, payee on a header line (with/without status and code), commodity after an amount / a cost / a balance assertion / on a commodity directive, tag name and tag value in header, posting and line comments; the line ends at the cursor (typing) or continues behind it; the fragment is a prefix (length 0..full, 4 case variants), a subsequence of an existing name, or garbage. Two servers configured with maxResults a<b (1..200), fuzzy on/off, counts on/off answer every probe. Oracle clauses: sound (label exists in the scope and matches the fragment: subsequence with fuzzy, prefix without, case-insensitively), complete (every scope name starting with the fragment is offered when fewer than max were returned), bounded, prefix law (list(a) = list(b)[:a]), ranking (empty fragment: no item precedes one that is certainly used more often), edit (a TextEdit replaces exactly [cursor-len(fragment), cursor]). Second part: every column of sampled lines of the unmodified document, weak oracle (labels exist for their kind, bounded, prefix law, edit range on the line and ending at the cursor). Non-trivial = probe with a non-empty required set or a non-empty answer; distinct by (slot, fragment class, config class).",
 		Notes:       []string{"scope of names = C09's: the workspace tree with a root, the document's include closure without", "names created by the probe line itself (the fragment read as a name) are allowed but never required"},
 		Cases:       c16Counts,
 		MustObserve: []string{"probes", "items_checked", "required_checked", "prefix_pairs", "rank_pairs", "edits_checked", "sweep_positions", "history_probes"},
@@ -394,7 +394,17 @@ func runC16(c *Ctx, idx int64) {
 	if dynInc {
 		shape = "chain"
 	}
-	w := genWorkspace(r, st.bad, WSOpt{Files: nf, Entries: [2]int{3, 8}, Shape: shape, LF: true})
+	// an eighth of the workspaces are big: 45-70 entries per file, so that a short fragment has
+	// far more candidates (60-150 names) than the smaller limits and, with fuzzy matching, than 64
+	entries := [2]int{3, 8}
+	if !dynInc && r.Chance(1, 8) {
+		entries = [2]int{45, 70}
+		if nf == 3 {
+			nf = 2
+		}
+		c.Count("big_workspaces", 1)
+	}
+	w := genWorkspace(r, st.bad, WSOpt{Files: nf, Entries: entries, Shape: shape, LF: true})
 	w.Root = r.Bool() || dynInc
 	dir := filepath.Join(c.Dir, fmt.Sprintf("w%d", idx), "ws")
 	os.MkdirAll(dir, 0o755)
